@@ -225,13 +225,18 @@ def div (f : Fmt) : FVal → FVal → FVal
 
 end Fmt
 
+/-- the integer part of a finite value (truncation toward zero) -/
+def truncInt (s : Bool) (m : Nat) (e : Int) : Int :=
+  let a : Nat := if 0 ≤ e then m * 2 ^ e.toNat else m / 2 ^ (-e).toNat
+  if s then -(a : Int) else a
+
+/-- a mathematical integer as a value of `t`, undefined when it does not fit -/
+def intoRange (t : IntTy) (v : Int) : Res Int := if t.InRange v then .ok v else .ub .floatToIntRange
+
 /-- `static_cast<T>(x)` for a floating `x`: truncation toward zero; undefined when the truncated
 value is not representable in `T` or `x` is NaN/∞ -/
 def fToInt (t : IntTy) : FVal → Res Int
-  | .fin s m e =>
-    let a : Nat := if 0 ≤ e then m * 2 ^ e.toNat else m / 2 ^ (-e).toNat
-    let v : Int := if s then -(a : Int) else a
-    if t.InRange v then .ok v else .ub .floatToIntRange
+  | .fin s m e => intoRange t (truncInt s m e)
   | _ => .ub .floatToIntRange
 
 /-- floating operators by name (shared with the integer `BinOp`; only `+ - * /` exist) -/
